@@ -5,6 +5,14 @@ from . import reldb, stdlib, replay, world
 from .world import *
 
 
+def z3util_vars(f):
+    from z3 import z3util
+    try:
+        return z3util.get_vars(f)
+    except Exception:
+        return []
+
+
 class Step:
     def __init__(self, pre, post, args, nows, err, res, extra=None):
         self.pre, self.post, self.args, self.nows, self.err, self.res = pre, post, args, nows, err, res
@@ -168,7 +176,10 @@ class Transition:
             if f is False:
                 verdicts[label] = 'violated'
                 continue
-            s.add(f)
+            # oracle variables named probe_* are universally quantified (e.g. "at every later instant"); clock readings are existential
+            probes = [v for v in z3util_vars(f) if v.decl().name().startswith('probe_')]
+            s.add(z3.ForAll(probes, f) if probes else f)
+            s.add(*backoff_axioms(f))
             verdicts[label] = 'holds' if s.check() == z3.sat else 'violated'
         return verdicts
 
